@@ -37,11 +37,25 @@ def _docstring_free(body):
     return body
 
 
+def _tail_return(body):
+    """the single `return` in tail position (last statement, possibly inside `with` blocks that end the body)"""
+    cur = body
+    while cur:
+        last = cur[-1]
+        if isinstance(last, ast.Return):
+            return last
+        if isinstance(last, ast.With):
+            cur = last.body
+            continue
+        return None
+    return None
+
+
 def _returns_only_last(body):
     rets = [n for s in body for n in A.walk_local(s) if isinstance(n, ast.Return)]
     if not rets:
         return True
-    return len(rets) == 1 and body and body[-1] is rets[0]
+    return len(rets) == 1 and body and _tail_return(body) is rets[0]
 
 
 class Inliner:
@@ -49,11 +63,14 @@ class Inliner:
         self.prog = prog
         self.inv = inventory()
         self.counter = 0
+        self.used = {}
         # helper table: name -> [(mod, qual, fn)] for functions not in the inventory
         self.helpers = {}
         for mn, m in prog.modules.items():
             for q, lst in m.all_functions.items():
-                if (mn, q) not in self.inv and len(lst) == 1 and "<locals>" not in q:
+                # a decorator changes what a call does (lru_cache, contextmanager, ...): decorated helpers are never transparent
+                plain = all((dotted(d) or "") in ("staticmethod",) for d in lst[0].decorator_list) if len(lst) == 1 else False
+                if (mn, q) not in self.inv and len(lst) == 1 and "<locals>" not in q and plain:
                     self.helpers.setdefault(q.split(".")[-1], []).append((mn, q, lst[0]))
 
     def any_helpers(self):
@@ -239,10 +256,21 @@ class Inliner:
             if env is None:
                 return None
             body = me._instantiate(cfn, env)
+            me.used[(cm, cq)] = me.used.get((cm, cq), 0) + 1
             ret = None
             if body and isinstance(body[-1], ast.Return):
                 ret = body[-1].value
                 body = body[:-1]
+            elif body and isinstance(body[-1], ast.With):
+                tr = _tail_return(body)
+                if tr is not None:
+                    # `with ...: return E`  ->  `with ...: __ret = E`, result __ret
+                    rname = "__h%d_ret" % me.counter
+                    holder = body
+                    while not isinstance(holder[-1], ast.Return):
+                        holder = holder[-1].body
+                    holder[-1] = ast.copy_location(ast.Assign(targets=[ast.Name(id=rname, ctx=ast.Store())], value=tr.value if tr.value is not None else ast.Constant(value=None)), tr)
+                    ret = ast.Name(id=rname, ctx=ast.Load())
             if kind == "expr":
                 return body or [ast.copy_location(ast.Pass(), s)]
             if ret is None:
@@ -268,6 +296,7 @@ class Inliner:
                     if e is None:
                         return n
                     changed[0] = True
+                    me.used[(cm, cq)] = me.used.get((cm, cq), 0) + 1
                     return ast.copy_location(e, n)
 
                 def visit_FunctionDef(self, n):
